@@ -155,6 +155,7 @@ structure Rec where
   ints : List Int
   twod : Bool
   hash : String
+  hashs : String
   valid : List Bool
   nu : Int
   utop : Int
@@ -182,17 +183,17 @@ def parseRec (line : String) : Option Rec :=
     let hw := words head
     match hw with
     | "rec" :: phase :: kind :: i0 :: i1 :: i2 :: rest =>
-      match parseInts? [i0, i1, i2], kv rest "twod", kv rest "hash", kv rest "valid", kv rest "nu", kv rest "utop",
+      match parseInts? [i0, i1, i2], kv rest "twod", kv rest "hash", kv rest "hashs", kv rest "valid", kv rest "nu", kv rest "utop",
             kv rest "oldN", kv rest "newN", (words ns).drop 1 |>.mapM parseNode, parseCells t, parseCells r,
             parseCells e with
-      | some ints, some twod, some hash, some valid, some nu, some utop, some oldN, some newN, some nodes, some t,
+      | some ints, some twod, some hash, some hashs, some valid, some nu, some utop, some oldN, some newN, some nodes, some t,
         some r, some e =>
         match nu.toInt?, utop.toInt?, oldN.toInt?, newN.toInt? with
         | some nu, some utop, some oldN, some newN =>
-          some { phase, kind, ints, twod := twod == "1", hash, valid := valid.toList.map (· == '1'), nu, utop,
+          some { phase, kind, ints, twod := twod == "1", hash, hashs, valid := valid.toList.map (· == '1'), nu, utop,
                  oldN, newN, nodes, g := ⟨t, r, e⟩ }
         | _, _, _, _ => none
-      | _, _, _, _, _, _, _, _, _, _, _, _ => none
+      | _, _, _, _, _, _, _, _, _, _, _, _, _ => none
     | _ => none
   | _ => none
 
@@ -205,6 +206,16 @@ def recReals (r : Rec) (v : Int) : List String :=
   match r.nodes.find? (fun p => p.1 == v) with
   | some p => p.2.2.map fmtF
   | none => []
+
+def recFloats (r : Rec) (v : Int) : List Float :=
+  match r.nodes.find? (fun p => p.1 == v) with
+  | some p => p.2.2
+  | none => []
+
+/-- metric entries (reals 3..14) equal up to a relative 1e-9 -/
+def metricClose (a b : List Float) : Bool :=
+  a.length == b.length && ((a.zip b).drop 3).all fun p =>
+    p.1 == p.2 || Float.abs (p.1 - p.2) ≤ 1.0e-9 * (if Float.abs p.1 < Float.abs p.2 then Float.abs p.2 else Float.abs p.1)
 
 def sameGroups (a b : Groups) : Bool :=
   sortCells a.tet == sortCells b.tet && sortCells a.tri == sortCells b.tri && sortCells a.edg == sortCells b.edg
@@ -265,8 +276,9 @@ def judge (pend : List Rec) (r : Rec) : String :=
     -- smooth_*: moved or restored is decided here
     let moved := (recReals r n0).take 3 != (recReals b n0).take 3
     if !moved then
-      let e1 := if recReals r n0 == recReals b n0 then "" else " metric-not-restored"
-      let e2 := if r.hash == b.hash then "" else " hash-differs"
+      -- the C restores xyz and re-interpolates the metric from the background grid: equal up to rounding
+      let e1 := if metricClose (recFloats r n0) (recFloats b n0) then "" else " metric-not-restored"
+      let e2 := if r.hashs == b.hashs then "" else " hash-differs"
       if e1 ++ e2 == "" then s!"ok end {r.kind} restored" else s!"bad {r.kind} restored" ++ e1 ++ e2
     else
       let e1 := if sameGroups r.g b.g then "" else " cells-changed"
